@@ -143,6 +143,8 @@ def plan(prop, tier):
         return [K("tok", Toks='"core"', MaxToks=4 if q else 5),
                 K("wide", Toks='"wide"', MaxToks=3 if q else 4),
                 K("class", Toks='"class"', MaxToks=5 if q else 6),
+                K("grp", Toks='"grp"', MaxToks=6 if q else 7),
+                K("bref10", Toks='"bref10"', MaxToks=4 if q else 5, Alpha="{97, 48, 49}", MaxLen=2, invs=[]),
                 K("flags", Mode='"flags"', MaxToks=3),
                 K("tokx", Toks='"xws"', MaxToks=4 if q else 5, FlagAlpha='"x"'),
                 G("valid", Leaves="<-LvAll", Quants="<-QAll", MaxSize=3, MaxLen=1, invs=["T1_RoundTrip"]),
@@ -150,6 +152,7 @@ def plan(prop, tier):
     if prop == "C13":
         return [K("lit", Mode='"lit"', Toks='"meta"', MaxToks=2 if q else 3, invs=["T10_QLiteral"]),
                 K("litov", Mode='"lit"', Toks='"ab"', MaxToks=4 if q else 5, LitFlags='"qi"', invs=["T10_QLiteral"]),
+                K("litparen", Mode='"lit"', Toks='"paren"', MaxToks=4 if q else 5, LitFlags='"qi"', invs=["T10_QLiteral"]),
                 T("rand", "repl", 1500, 30000)]
     if prop == "C15":
         return [R("repl", 3 if q else 4), T("rand", "repl", 2000, 40000)]
@@ -228,7 +231,7 @@ def plan(prop, tier):
     if prop == "C18":
         return [{"type": "apimc", "tag": "mc", "consts": {"Depth": 6 if q else 8, "RegIds": "{1, 2}", "ItIds": "{1, 2}",
                                                         "PoolName": '"small"'}},
-                {"type": "apisim", "tag": "sim", "num": 400 if q else 6000, "depth": 14,
+                {"type": "apisim", "tag": "sim", "num": 1000 if q else 8000, "depth": 14,
                  "consts": {"Depth": 14, "RegIds": "{1, 2, 3}", "ItIds": "{1, 2, 3}", "PoolName": '"wide"'}},
                 T("threads", "general", 800, 15000, mode="threads")] + ([] if q else [SUITE])
     if prop == "C19":
@@ -238,6 +241,7 @@ def plan(prop, tier):
                   Alpha="{97, 65, 98}"),
                 G("brefalt", Leaves="<-LvBrefAlt", Quants="<-QBrefAlt", MaxSize=4, MaxLen=4 if q else 5, MaxGroups=2,
                   Shapes="<-ShapesNoGrp", FlagSets="<-OnlyNoFlags"),
+                K("bref10", Toks='"bref10"', MaxToks=4 if q else 5, Alpha="{97, 48, 49}", MaxLen=3, invs=[]),   # \10 against \1 + 0
                 T("rand", "brefs", 2000, 40000)]
     if prop == "C20":
         return [G("laws", Leaves="<-LvLaws", Quants="<-QLaws", MaxSize=3 if q else 4, MaxLen=3, MaxGroups=2,
